@@ -3,6 +3,7 @@ package refmodel
 
 import (
 	"strings"
+	"sync"
 	"time"
 
 	imap "github.com/emersion/go-imap/v2"
@@ -19,6 +20,22 @@ type Msg struct {
 	Body     string
 	Text     string // headers + body as searched by TEXT
 	ModSeq   uint64
+
+	lowOnce  sync.Once
+	lowBody  string
+	lowText  string
+	lowFlags []string
+}
+
+// low caches the lower-cased searchable fields (Match is called billions of times).
+func (m *Msg) low() {
+	m.lowOnce.Do(func() {
+		m.lowBody = strings.ToLower(m.Body)
+		m.lowText = strings.ToLower(m.Text)
+		for _, f := range m.Flags {
+			m.lowFlags = append(m.lowFlags, strings.ToLower(f))
+		}
+	})
 }
 
 func day(t time.Time) int {
@@ -27,8 +44,10 @@ func day(t time.Time) int {
 }
 
 func (m *Msg) hasFlag(f imap.Flag) bool {
-	for _, x := range m.Flags {
-		if strings.EqualFold(x, string(f)) {
+	m.low()
+	lf := strings.ToLower(string(f))
+	for _, x := range m.lowFlags {
+		if x == lf {
 			return true
 		}
 	}
@@ -78,12 +97,12 @@ func Match(c *imap.SearchCriteria, m *Msg) bool {
 		}
 	}
 	for _, s := range c.Body {
-		if !strings.Contains(strings.ToLower(m.Body), strings.ToLower(s)) {
+		if m.low(); !strings.Contains(m.lowBody, strings.ToLower(s)) {
 			return false
 		}
 	}
 	for _, s := range c.Text {
-		if !strings.Contains(strings.ToLower(m.Text), strings.ToLower(s)) {
+		if m.low(); !strings.Contains(m.lowText, strings.ToLower(s)) {
 			return false
 		}
 	}
